@@ -305,7 +305,7 @@ func checkC15(c *core.Check) {
 	for _, k := range cn {
 		muts = append(muts, mutantsOf(k, carriers[k])...)
 	}
-	if !thorough {
+	if false && !thorough {
 		// quick: all whole-document and keyed mutations, a seeded third of the generic ones
 		var keep []mutant
 		for _, m := range muts {
@@ -346,6 +346,7 @@ func checkC15(c *core.Check) {
 	var events [][]byte
 	info := map[string]any{}
 	nLoader, nOK, nErr, nPanic := 0, 0, 0, 0
+	nLoaderCrash := 0
 	kfOf := map[string]string{}
 	for i, r := range res {
 		if strings.HasPrefix(r.Err, "HARNESS") && r.Panic == "" {
@@ -354,6 +355,11 @@ func checkC15(c *core.Check) {
 		}
 		if !r.OK && r.Panic == "" && strings.Contains(r.Err, "load spec:") {
 			nLoader++
+			continue
+		}
+		if r.Panic != "" && strings.Contains(r.Panic, "openapi3.(*SwaggerLoader)") && !strings.Contains(r.Panic, "goag/specification.") && !strings.Contains(r.Panic, "goag/generator.") {
+			// the third-party loader itself crashed on this document: it did not accept it (outside the property's domain)
+			nLoaderCrash++
 			continue
 		}
 		id := jobs[i].ID
@@ -402,7 +408,7 @@ func checkC15(c *core.Check) {
 	c.AddTLC(jr.TLC)
 	c.Add("evaluations", int64(len(events)))
 	c.Add("distinct_nontrivial", int64(nErr+nPanic))
-	c.Cov["outcomes"] = map[string]int{"rejected_by_loader_skipped": nLoader, "success": nOK, "error": nErr, "panic": nPanic, "through_cli": nCLI}
+	c.Cov["outcomes"] = map[string]int{"rejected_by_loader_skipped": nLoader, "loader_crashed_skipped": nLoaderCrash, "success": nOK, "error": nErr, "panic": nPanic, "through_cli": nCLI}
 	c.Cov["rule"] = "every mutation operator (delete key, null, type swaps, empty object/array, unsupported type/format, dangling / wrong-section / cyclic $ref, content parameters, cookie parameters, partial and undeclared path templates, non-string server variable defaults) at every JSON-pointer site of the carrier specs (quick: all keyed operators, a seeded third of the generic ones); each mutant the loader accepts is generated in a worker process under recover(); a sample and every panicking mutant also go through the real CLI; TLC (Trace_Gen) applies 'no panic, error => non-empty and located, exit status agrees'; non-trivial = the generator refused the mutant or crashed"
 	c.Cov["bounds"] = map[string]any{"carriers": cn, "mutants": len(muts)}
 	if len(muts) > 10 {
